@@ -95,6 +95,15 @@ impl FecDecoder for RaptorDecoder {
             return;
         }
 
+        if encoding_symbol.len() < long_size {
+            // The codec handles a short symbol as if it was padded with zeros. It is padded here,
+            // a block rebuilt from symbols that do not belong together must not end up with a
+            // decoded symbol shorter than its place in the block (the codec panics on it)
+            let mut symbol = encoding_symbol.to_vec();
+            symbol.resize(long_size, 0);
+            return self.decoder.push_encoding_symbol(&symbol, esi);
+        }
+
         self.decoder.push_encoding_symbol(encoding_symbol, esi)
     }
 
